@@ -84,6 +84,16 @@ def sharing_family():
                       ("obj", [], [], [(S("a"), ":", False, ("bin", "+", N(1), N(1))),
                                        (S("b"), ":", False, ("index", ("self",), S("a")))]),
                       ("obj", [], [], [(S("c"), ":", False, ("arr", [("index", ("self",), S("a"))] * k))])))
+    # an object local read by assertions and by fields (and by both layers' assertions): one evaluation
+    for nas in (1, 2):
+        for nf in (1, 2):
+            asserts = [(("bin", ">", V("l"), N(i)), None if i else S("msg")) for i in range(nas)]
+            fields = [(S("f%d" % i), ":", False, ("bin", "+", V("l"), N(i))) for i in range(nf)]
+            o = ("obj", [("l", ("bin", "+", N(4), N(4)))], asserts, fields)
+            progs.append(o)
+            progs.append(("index", o, S("f0")))
+            progs.append(("bin", "+", o, ("obj", [("m", ("bin", "*", N(2), N(2)))],
+                                          [(("bin", "<", V("m"), N(9)), None)], [(S("g"), ":", False, V("m"))])))
     # an element reached through several routes (lazy handle created first, element evaluated through
     # another route, handle forced last - and every other order)
     import itertools
